@@ -11,7 +11,8 @@ EXTENDS Integers, FiniteSets, Sequences, TLC
 
 CONSTANTS T,          \* heartbeat timeout in ticks
           Interval,   \* heartbeat interval in ticks (Interval < T)
-          MaxNow
+          MaxNow,
+          Deviations  \* "NoLoginDeadline": an unanswered login exchange is waited for without limit
 
 (***** server watchdog over one session *****)
 VARIABLES now, lastPing, up, peer, sincePing, reachable, cstate, registered, faults
@@ -45,12 +46,18 @@ Outage == /\ (reachable => faults < MaxFaults) /\ faults' = IF reachable THEN fa
 Attempt == /\ cstate = "waiting"
            /\ cstate' = IF reachable THEN "loggedin" ELSE "waiting"     \* a failed attempt backs off and tries again
            /\ UNCHANGED <<now, lastPing, up, peer, sincePing, reachable, registered, faults>>
+\* the path accepts the connection but swallows the login: the attempt is pending until the deadline on the login
+\* exchange (client/service.go login: 10 s on the whole exchange) gives it up
+AttemptSwallowed == /\ cstate = "waiting" /\ faults < MaxFaults /\ faults' = faults + 1 /\ cstate' = "pending"
+                    /\ UNCHANGED <<now, lastPing, up, peer, sincePing, reachable, registered>>
+LoginDeadline == /\ cstate = "pending" /\ "NoLoginDeadline" \notin Deviations /\ cstate' = "waiting"
+                 /\ UNCHANGED <<now, lastPing, up, peer, sincePing, reachable, registered, faults>>
 ReRegister == /\ cstate = "loggedin" /\ cstate' = "registered" /\ registered' = TRUE
               /\ UNCHANGED <<now, lastPing, up, peer, sincePing, reachable, faults>>
 
-Next == Tick \/ GoSilent \/ GoInvalid \/ Lose \/ Outage \/ Attempt \/ ReRegister
+Next == Tick \/ GoSilent \/ GoInvalid \/ Lose \/ Outage \/ Attempt \/ AttemptSwallowed \/ LoginDeadline \/ ReRegister
 Spec == Init /\ [][Next]_vars
-LiveSpec == Spec /\ WF_vars(Attempt) /\ WF_vars(ReRegister)
+LiveSpec == Spec /\ WF_vars(Attempt) /\ WF_vars(ReRegister) /\ WF_vars(LoginDeadline)
 
 \* a session whose peer stopped sending valid heartbeats is gone at most T + 1 ticks after the last valid one
 SilentPeerDroppedBy == (up /\ peer # "pinging") => now - lastPing <= T + 1
